@@ -1,49 +1,95 @@
 from api import H, prop, mut, claim
 F = "harness/C11_bintree.c"
-_B = "every binary tree shape with at most %d nodes (symbolic shape: node count and left-subtree sizes are inputs)"
-_BL = "left- and right-leaning list spines of at most %d list nodes; elements with arbitrary (possibly list-flagged) children"
-ITERS = [("iter_in_order", ["bintree_iterate_in_order", "in_order_iterator", "bintree_next", "bintree_traverse_in_order"]),
-         ("iter_pre_order", ["bintree_iterate_pre_order", "pre_order_iterator", "bintree_next", "bintree_traverse_pre_order"]),
-         ("iter_post_order", ["bintree_iterate_post_order", "post_order_iterator", "in_order_iterator", "bintree_next", "bintree_traverse_post_order"])]
-FREES = [("free", ["bintree_free", "bintree_iterate_post_order", "post_order_iterator"]), ("free_left", ["bintree_free_left", "bintree_free"]),
-         ("free_right", ["bintree_free_right", "bintree_free"])]
+REC = ["ref_in_order:%d", "ref_pre_order:%d", "ref_post_order:%d", "bintree_traverse_in_order_depth:%d",
+       "bintree_traverse_pre_order_depth:%d", "bintree_traverse_post_order_depth:%d", "bintree_traverse_list:%d"]
+IN_F = ["bintree_iterate_in_order", "in_order_iterator", "bintree_next", "bintree_traverse_in_order"]
+PRE_F = ["bintree_iterate_pre_order", "pre_order_iterator", "bintree_next", "bintree_traverse_pre_order"]
+POST_F = ["bintree_iterate_post_order", "post_order_iterator", "in_order_iterator", "bintree_next", "bintree_traverse_post_order"]
+FREE_F = {"free": ["bintree_free", "bintree_iterate_post_order", "post_order_iterator", "bintree_next"],
+          "free_left": ["bintree_free_left", "bintree_free"], "free_right": ["bintree_free_right", "bintree_free"]}
 LISTF = ["bintree_iterate_list", "list_left_iterator", "list_right_iterator", "bintree_next", "bintree_traverse_list"]
 
-def _sym(n, tiers, timeout):
-    return [H("%s_n%d" % (nm, n), F, "h_" + nm, fns, defs=["-DN=%d" % n], unwind=2 * n + 6, timeout=timeout, tiers=tiers,
-              solvers=("cadical", "minisat"), bounded=_B % n) for nm, fns in ITERS + FREES]
+def shapes(n):
+    """every binary tree shape with n nodes as the list of left-subtree sizes in pre-order"""
+    if n == 0:
+        return [[]]
+    out = []
+    for l in range(n):
+        for a in shapes(l):
+            for b in shapes(n - 1 - l):
+                out.append([l] + a + b)
+    return out
 
-def _parts(n, tiers, timeout):
-    """thorough: one query per (node count, size of the root's left subtree): the union is every shape with <= n nodes"""
-    hs = []
-    for nm, fns in ITERS + FREES:
-        for cnt in range(0, n + 1):
-            for l0 in range(0, max(cnt, 1)):
-                hs.append(H("%s_n%d_l%d_of%d" % (nm, cnt, l0, n), F, "h_" + nm, fns,
-                            defs=["-DN=%d" % n, "-DFIXN=%d" % cnt, "-DFIXL0=%d" % l0], unwind=2 * n + 6, timeout=timeout, tiers=tiers,
-                            solvers=("cadical", "minisat"), cover=False, bounded=_B % n,
-                            note="shapes with exactly %d nodes whose root has a left subtree of %d nodes" % (cnt, l0)))
-    return hs
+def _tiers(quick):
+    return ("quick", "thorough") if quick else ("thorough",)
+
+def _enum(nm, fns, n, quick, l0=None):
+    N = max(n, 1)
+    defs = ["-DN=%d" % N, "-DENUM_N=%d" % n] + (["-DENUM_L0=%d" % l0] if l0 is not None else [])
+    return H("%s_all_shapes_n%d%s" % (nm, n, "" if l0 is None else "_l%d" % l0), F, "h_enum_" + nm, fns, defs=defs, unwind=100, timeout=1200,
+             tiers=_tiers(quick), solvers=("cadical",), cover=False, floor=20,
+             bounded="every binary tree shape with exactly %d nodes%s, enumerated with concrete values inside one query (shape count asserted against the Catalan number)"
+                     % (n, "" if l0 is None else " whose root has a left subtree of %d nodes" % l0))
+
+def _shape(nm, fns, ls, quick, pool=False, timeout=900):
+    n = len(ls)
+    N = max(n, 1)
+    defs = ["-DN=%d" % N, "-DK=1", "-DSHAPE_N=%d" % n, "-DSHAPE_LS=%s" % ",".join(str(x) for x in ls + [0])] + (["-DPOOLFREE"] if pool else [])
+    return H("%s%s_shape_%d_%s" % (nm, "_pool" if pool else "", n, "".join(str(x) for x in ls) or "empty"), F, "h_" + nm, fns, defs=defs, unwind=N + 5,
+             unwindset=[r % (N + 2) for r in REC], timeout=timeout, tiers=_tiers(quick), solvers=("cadical",), cover=False, floor=20,
+             bounded="one concrete tree shape (%d nodes, left-subtree sizes %s); the tier enumerates every shape up to its node bound" % (n, ls),
+             note="shape: n=%d ls=%s" % (n, ls))
+
+def _list(k, d, quick):
+    return H("iter_list_%s_k%d" % ("right" if d else "left", k), F, "h_iter_list", LISTF, defs=["-DN=2", "-DK=%d" % max(k, 1), "-DSPINE_K=%d" % k, "-DSPINE_DIR=%d" % d],
+             unwind=max(k, 1) + 5, unwindset=["bintree_traverse_list:%d" % (k + 4)], timeout=900, tiers=_tiers(quick), solvers=("cadical",), floor=10,
+             bounded="%s-leaning list spine of exactly %d list nodes; the elements' own children (present or not, flagged as list nodes or not) are symbolic"
+                     % ("right" if d else "left", k))
+
+HS = []
+for n in range(0, 8):
+    if n <= 6:
+        HS += [_enum("iter_in_order", IN_F, n, n <= 5), _enum("iter_pre_order", PRE_F, n, n <= 5)]
+    else:
+        for l0 in range(n):
+            HS += [_enum("iter_in_order", IN_F, n, False, l0), _enum("iter_pre_order", PRE_F, n, False, l0)]
+for n in range(0, 6):
+    for ls in shapes(n):
+        HS.append(_shape("iter_post_order", POST_F, ls, n <= 4))
+for n in range(0, 5):
+    for ls in shapes(n):
+        for nm, fns in FREE_F.items():
+            if n == 0 and nm != "free":
+                continue
+            if n <= 3:
+                HS.append(_shape(nm, fns, ls, True))               # malloc/free: exact use-after-free obligation
+            else:
+                HS.append(_shape(nm, fns, ls, False, pool=True, timeout=1800))   # pool + junk-on-free
+for k in range(0, 9):
+    for d in (0, 1):
+        if k == 0 and d == 1:
+            continue
+        HS.append(_list(k, d, k <= 4))
 
 prop("C11", "model_checking",
-     "Harness-enforced contracts on the real bintree.c iterators and bintree_free over a bounded symbolic universe of tree shapes (DESIGN P4): the node count n and the size of every "
-     "node's left subtree are inputs, so every binary tree shape with at most N nodes (empty, single, spines, zig-zag included) is covered in one symbolic query. Postconditions from the "
-     "statement: the iterator returns each node once, in the order of the file's own recursive traversal and of an independent recursive reference over the abstract shape; after "
-     "completion every left/right link has its original value; the list iterator equals the recursive list traversal on left- and right-leaning spines; bintree_free[_left/_right] hand "
-     "every node of the subtree to the deallocator once, children first, and clear the parent's link. The deallocator stub really free()s each node (own malloc object), so CBMC's "
-     "dereference checks are the 'never reads a node after deallocation' obligation.",
-     _sym(4, ("quick",), 900) +
-     [H("iter_list_k3", F, "h_iter_list", LISTF, defs=["-DN=4", "-DK=3"], unwind=14, timeout=900, tiers=("quick",), solvers=("cadical", "minisat"), bounded=_BL % 3),
-      H("iter_list_k5", F, "h_iter_list", LISTF, defs=["-DN=4", "-DK=5"], unwind=18, timeout=3000, tiers=("thorough",), solvers=("cadical", "minisat"), bounded=_BL % 5)] +
-     _parts(6, ("thorough",), 3000),
+     "Harness-enforced contracts on the real bintree.c iterators and bintree_free over a bounded universe of tree shapes (DESIGN P4), enumerated exhaustively: an abstract shape is the "
+     "node count and the size of every node's left subtree; the harness realises it in memory, runs the real code and checks the statement's postconditions - the iterator returns each "
+     "node once, in the order of the file's own recursive traversal and of an independent recursive reference over the abstract shape; after completion every left/right link has its "
+     "original value; the list iterator equals the recursive list traversal on left- and right-leaning spines; bintree_free[_left/_right] hand every node of the subtree to the "
+     "deallocator once, children first, and clear the parent's link. In the malloc variant the deallocator stub really free()s each node (own malloc object), so CBMC's dereference "
+     "checks are the 'never reads a node after deallocation' obligation. In-order and pre-order: all shapes of one node count in one query (concrete enumeration inside the harness). "
+     "Post-order and free keep a mark in bit 0 of a pointer, which CBMC cannot constant-fold, so they are one query per shape.",
+     HS, jobs=10,
      trusted=["CBMC models of malloc/free (deallocated-object tracking)"],
      assumptions=["nodes are at least 2-byte aligned (pool nodes are naturally aligned): the post-order iterator keeps a mark in bit 0 of the left pointer",
-                  "bintree.c is not part of the library build; the harness includes it directly"])
+                  "bintree.c is not part of the library build; the harness includes it directly",
+                  "quick: in/pre-order every shape <= 5 nodes, post-order <= 4, free/free_left/free_right <= 3 (malloc variant), list spines <= 4 list nodes per direction; "
+                  "thorough: in/pre-order <= 7, post-order <= 5, free <= 3 (malloc) and 4 (pool variant: deallocation overwrites the node's links with arbitrary junk instead of free()), spines <= 8"])
 claim("C11", "model_checking",
-      "CBMC harness-enforced contracts on the real bintree.c iterators / bintree_free over a bounded symbolic universe of tree shapes, recursive traversals and an independent reference as oracle",
-      "Every tree shape with at most 4 (quick) / 6 (thorough) nodes is covered symbolically: order, exactly-once, link restoration, deallocation order and use-after-free freedom are checked on each. Larger shapes are not covered.",
-      "CBMC has no inductive heap predicates: the node count is a bound and the result is labelled bounded (never counted as proved). Random larger shapes of the record's quantifier are not sampled (different technique).",
+      "CBMC harness-enforced contracts on the real bintree.c iterators / bintree_free over an exhaustively enumerated bounded universe of tree shapes; recursive traversals and an independent reference as oracle",
+      "Every tree shape up to the tier's node bound (quick: 5 in/pre-order, 4 post-order, 3 free; thorough: 7 / 5 / 4) is checked: order, exactly-once, link restoration, deallocation order, parent link cleared, and (malloc variant) no access to a deallocated node. Larger shapes are not covered.",
+      "Bounded stand-in, never counted as proved: CBMC has no inductive heap predicates and a fully symbolic shape costs minutes per query already at 4 nodes, so shapes are enumerated. Random larger shapes of the record's quantifier are not sampled (different technique).",
       "DESIGN.md 5.C11")
-mut("C11", "in-order-thread-left-in-place", [("librfn/bintree.c", "\t\t\tprev->right = NULL;\n\t\t\titer->curr = curr->right;\n\t\t\treturn curr;", "\t\t\titer->curr = curr->right;\n\t\t\treturn curr;")], r"C11|dereference", skip_tests=True)
-mut("C11", "post-order-tag-not-cleared", [("librfn/bintree.c", "\t\t/* unmark this node */\n\t\ttmp->left =\n\t\t    (bintree_node_t *)(((uintptr_t)tmp->left) & (uintptr_t)-2);\n", "")], r"C11|dereference", skip_tests=True)
-mut("C11", "free-patches-parent-before-dealloc-read", [("librfn/bintree.c", "\t\tdealloc(n);\n\n\t\tif (iter.parent) {", "\t\tdealloc(n);\n\t\tif (n->left) n->left = NULL;\n\n\t\tif (iter.parent) {")], r"C11|dereference|deallocated", skip_tests=True)
+mut("C11", "in-order-thread-left-in-place", [("librfn/bintree.c", "\t\t\tprev->right = NULL;\n\t\t\titer->curr = curr->right;\n\t\t\treturn curr;", "\t\t\titer->curr = curr->right;\n\t\t\treturn curr;")], r"C11|dereference|unwinding", skip_tests=True)
+mut("C11", "post-order-tag-not-cleared", [("librfn/bintree.c", "\t\t/* unmark this node */\n\t\ttmp->left =\n\t\t    (bintree_node_t *)(((uintptr_t)tmp->left) & (uintptr_t)-2);\n", "")], r"C11|dereference|unwinding", skip_tests=True)
+mut("C11", "free-reads-node-after-dealloc", [("librfn/bintree.c", "\t\tdealloc(n);\n\n\t\tif (iter.parent) {", "\t\tdealloc(n);\n\t\tif (n->left) n->left = NULL;\n\n\t\tif (iter.parent) {")], r"C11|dereference|deallocated", skip_tests=True)
